@@ -337,6 +337,11 @@ def execute(start, hist):
                 if not s.op(o):
                     ok = False
                     break
+                if o[0] in ("exit", "exitx"):
+                    # leaving a block restores exactly the runtime that was current before it: looked at
+                    # right away (not an operation of the history, so nesting depth 4 fits into 5 operations)
+                    s.op(("probe",))
+                    s.op(("run", "T1"))
             out["applicable"] = ok
             out["state"] = s.real_state() if ok else None
             if ok and not s.stack:
